@@ -666,8 +666,26 @@ pub fn run_expr(scn: &Scenario, ctx: &mut Ctx) {
                 } else {
                     Request::new(f.clone(), arid(st.arg(2))).with_parameter(make_parameter(st.arg(2)), val.clone())
                 };
+                let mut want_body = Expression::new(f.clone()).with_parameter(make_parameter(st.arg(2)), val.clone());
                 if st.arg(3) % 2 == 0 {
                     rq = rq.with_parameter(make_parameter(st.arg(2) + 1), val2.clone());
+                    want_body = want_body.with_parameter(make_parameter(st.arg(2) + 1), val2.clone());
+                }
+                // optional parameters through the request-level builder: None adds nothing, Some(v) adds the parameter
+                match st.arg(3) / 7 % 4 {
+                    0 => {
+                        rq = rq.with_optional_parameter(make_parameter(st.arg(2) + 2), None::<Envelope>);
+                        ctx.probe("request-optional-parameter-none");
+                    }
+                    1 => {
+                        rq = rq.with_optional_parameter(make_parameter(st.arg(2) + 2), Some(val2.clone()));
+                        want_body = want_body.with_parameter(make_parameter(st.arg(2) + 2), val2.clone());
+                    }
+                    _ => {}
+                }
+                ctx.checked();
+                if *rq.body() != want_body {
+                    ctx.violate("C18.shape", "the body of a request built with the request-level parameter calls differs from the expression built from the same parameters (an optional parameter of None adds nothing)".to_string());
                 }
                 if !note.is_empty() || st.arg(3) % 7 == 3 {
                     rq = rq.with_note(note.clone());
